@@ -45,7 +45,7 @@ REQUIRED = {
     "own_evaluations_compared": 50,
     "operator_specific_bc_programs": 25,
     "time_dependent_bc_programs": 15,
-    "classes_seen": 8,
+    "classes_seen": 9,
     "grid_classes_seen": 4,
 }
 
@@ -260,6 +260,27 @@ def expression_program(rng, gspec, grid):
         ({"u": f"laplace(u + {a}*laplace(u)) - {b}*gradient_squared(u)"}, {"u": 0}),
     ]
     rhs, ranks = templates[int(rng.integers(len(templates)))]
+    rd = None
+    if rng.random() < 0.15:
+        variables = [["u", "v"], ["v", "u"], ["a", "b", "c"]][int(rng.integers(3))]
+        n = len(variables)
+        Ds = [float(np.round(rng.uniform(0.1, 2.0), 2)) for _ in range(n)]
+        diffusivity = Ds[0] if rng.random() < 0.3 else (Ds if rng.random() < 0.5 else np.array(Ds))
+        if not isinstance(diffusivity, (list, np.ndarray)):
+            Ds = [Ds[0]] * n
+        pool = [f"{a} * {variables[0]} - {variables[-1]}**2", f"{variables[0]} * {variables[-1]} + {b}", f"-{variables[-1]} + cos(t) * {c}", "0", f"{b}"]
+        srcs = [str(pool[int(rng.integers(len(pool)))]) for _ in range(n)]
+        if rng.random() < 0.4:  # dictionary form: only some variables have sources
+            keep = [i for i in range(n) if rng.random() < 0.6]
+            sources = {variables[i]: srcs[i] for i in reversed(keep)}
+            srcs = [srcs[i] if i in keep else "0" for i in range(n)]
+        else:
+            sources = list(srcs)
+        rhs = {v: f"{Ds[i]} * laplace({v}) + {srcs[i]}" for i, v in enumerate(variables)}
+        ranks = {v: 0 for v in variables}
+        rd = {"variables": variables, "diffusivity": diffusivity.tolist() if isinstance(diffusivity, np.ndarray) else diffusivity, "sources": sources}
+        if isinstance(diffusivity, np.ndarray):
+            rd["diffusivity_as_array"] = True
     vector = any(r > 0 for r in ranks.values())
     # expression-type conditions are documented to work for scalar operands only
     const_only = ["neumann0", "dirichlet0", "value", "derivative", "mixed"]
@@ -289,6 +310,13 @@ def expression_program(rng, gspec, grid):
         bc_ops, labels = None, [l1]
     eq = pde.PDE(rhs, bc=bc1, bc_ops=bc_ops, consts=consts)
     descr = {"rhs": rhs, "bc": bc1, "bc_ops": bc_ops, "bc_labels": labels, "consts": None if consts is None else {"k": consts["k"], "f0": "random field"}}
+    if rd is not None:
+        # the reaction-diffusion class assembles its right-hand sides itself; `rhs` is the
+        # documented formula D_i laplace(c_i) + s_i written independently by the harness
+        D_arg = np.array(rd["diffusivity"]) if rd.get("diffusivity_as_array") else rd["diffusivity"]
+        eq = pde.ReactionDiffusionPDE(rd["variables"], D_arg, rd["sources"], bc=bc1, bc_ops=bc_ops)
+        descr["class"] = "ReactionDiffusionPDE"
+        descr["arguments"] = rd
     return eq, state, rhs, ranks, bc1, bc_ops, consts, descr, labels
 
 
@@ -320,6 +348,8 @@ def run_shard(spec: dict) -> ShardResult:
                 res.seen("classes_seen", descr["class"])
             else:
                 eq, state, rhs, ranks, bc1, bc_ops, consts, descr, labels = expression_program(rng, gspec, grid)
+                if "class" in descr:
+                    res.seen("classes_seen", descr["class"])
         except Exception as exc:
             res.violation(f"constructing the equation raised {type(exc).__name__}: {str(exc)[:200]}", {"grid": gspec})
             continue
